@@ -62,6 +62,13 @@ def check_fallback(ctx):
         if p.outcome.kind != 'return' or p.outcome.expr is None:
             continue
         e = t.expand(p.outcome.expr)
+        if isinstance(e, ast.Call) and isinstance(
+                e.func, ast.Call) and method_call(e.func, 'get') and len(
+                    e.func.args) == 1 and not e.func.keywords:
+            # R.get(key)(...) on a path that excluded None: R[key](...)
+            e = ast.Call(func=ast.Subscript(
+                value=method_call(e.func)[0], slice=e.func.args[0],
+                ctx=ast.Load()), args=e.args, keywords=e.keywords)
         if not (isinstance(e, ast.Call) and isinstance(e.func,
                                                        ast.Subscript)):
             continue
@@ -90,6 +97,17 @@ def check_fallback(ctx):
                    and isinstance(c.expr.ops[0], ast.In)
                    and isinstance(c.expr.left, ast.Subscript)]
             regs = set()
+            # R.get(kind) is None: R has no handler for the kind either
+            for c in p.conds:
+                x = t.expand(c.expr) if c.kind == 'test' else None
+                if isinstance(x, ast.Compare) and len(x.ops) == 1 and \
+                        isinstance(x.ops[0], (ast.Is, ast.IsNot)) and \
+                        is_const(x.comparators[0], None) and isinstance(
+                            x.left, ast.Call) and method_call(
+                                x.left, 'get') and len(x.left.args) == 1 \
+                        and isinstance(x.left.args[0], ast.Subscript) and \
+                        c.pol == isinstance(x.ops[0], ast.Is):
+                    regs.add(U(method_call(x.left)[0]))
             for c in neg:
                 r = t.expand(c.expr.comparators[0])
                 if isinstance(r, ast.Call) and U(r.func).endswith(
